@@ -87,11 +87,19 @@ let run_case (line : string) : string =
 
 let () =
   match Array.to_list Sys.argv with
-  | _ :: "run" :: _ ->
+  | _ :: "run" :: rest ->
+      let skip = (match rest with k :: _ -> int_of_string k | [] -> 0) in
       (try
+         for _ = 1 to skip do ignore (input_line stdin) done;
          while true do
            let line = input_line stdin in
-           if line <> "" then print_endline (run_case line)
+           if line <> "" then begin
+             (* progress marker first, so that the orchestrator's watchdog sees which case is slow *)
+             (match String.index_opt line '\t' with
+              | Some k -> print_string ("@" ^ String.sub line 0 k ^ "\n"); flush stdout
+              | None -> ());
+             print_endline (run_case line)
+           end
          done
        with End_of_file -> ())
   | _ :: "mem" :: _ ->
@@ -131,13 +139,18 @@ let () =
            end
          done
        with End_of_file -> ())
-  | _ :: "spec" :: _ ->
+  | _ :: "spec" :: rest ->
       (* spec oracles, one call per line: id \t fn \t args... *)
       let rec nat_of_int i = if i <= 0 then O else S (nat_of_int (i - 1)) in
+      let skip = (match rest with k :: _ -> int_of_string k | [] -> 0) in
       (try
+         for _ = 1 to skip do ignore (input_line stdin) done;
          while true do
            let line = input_line stdin in
            if line <> "" then begin
+             (match String.index_opt line '\t' with
+              | Some k -> print_string ("@" ^ String.sub line 0 k ^ "\n"); flush stdout
+              | None -> ());
              match split_on '\t' line with
              | id :: "expand" :: maxc :: repl :: caps :: _ ->
                  let caps = Array.of_list (List.map (fun c -> if c = "~" then None else Some (dec c))
@@ -167,8 +180,10 @@ let () =
                         Buffer.add_string b (Printf.sprintf "\tnullable=%d" (if spec_nullable fl r then 1 else 0));
                         if bf then
                           Buffer.add_string b (Printf.sprintf "\tL=%d" (if spec_is_match fl inp r then 1 else 0));
-                        Buffer.add_string b (Printf.sprintf "\tRM=%d" (if spec_is_match_R fl inp r then 1 else 0));
-                        let spans = spec_spans fl inp r in
+                        if not bf then
+                          Buffer.add_string b (Printf.sprintf "\tRM=%d" (if spec_is_match_R fl inp r then 1 else 0));
+                        (* the ordered-choice reference is claimed (and computed) only on the strict class *)
+                        let spans = if strict_ok r then spec_spans fl inp r else [] in
                         let sp = List.map (fun ((i, j), e) ->
                           let gs = List.init ng (fun g ->
                             match lookup (nat_of_int (g + 1)) e with
